@@ -1263,7 +1263,11 @@ class MkForm(Op):
         return {"typ": typ, "name": rng.choice(names),
                 "decor": rng.choice(["ctor", "ctor", "partial"]),
                 "raise_at": rng.choice([1, 2, 5]) if rng.random() < 0.05 else 0,
-                "dtype": rng.choice(["float64", "float64", "complex128"])}
+                "dtype": rng.choice(["float64", "float64", "complex128"]),
+                # a form object that assembles with worker threads and is
+                # used for several assemblies (state kept on the form)
+                "nthreads": rng.choice([0, 0, 0, 0, 0, 0, 1, 2])
+                if typ == "bilinear" else 0}
 
     def meta(self, a, S):
         return {"typ": a["typ"], "name": a["name"]}
@@ -1282,6 +1286,8 @@ class MkForm(Op):
         if a["raise_at"]:
             fn = R.Raiser(fn, a["raise_at"])
         dt = np.float64 if a["dtype"] == "float64" else np.complex128
+        if a.get("nthreads") and a["typ"] == "bilinear" and not a["raise_at"]:
+            return table[1](fn, dtype=dt, nthreads=int(a["nthreads"]))
         return table[1](fn, dtype=dt)
 
 
